@@ -138,9 +138,13 @@ def cases(shard):
     else:
         fs = range(shard['lo'], shard['hi'] + 1)
     for f in fs:
+        done = set()
         for cname, cm in cv.care_menu(g, f):
             if shard.get('care') and cname not in ('TRUE', 'hints'):
                 continue
+            if cm in done:
+                continue     # e.g. hints = TRUE over two-valued variables
+            done.add(cm)
             n = len(cv.space_of(g))
             if f == (1 << n) - 1 and cm == f:
                 continue
